@@ -170,3 +170,36 @@ proof!(c10_value_ref, 3, {
     kani::cover!(true, "end reached");
     forget(r);
 });
+
+// ---------------------------------------------------------------------------
+// C14 (plumbing): arguments of an extension function reach the data type's hook one
+// value per argument that selects a node; an argument that selects nothing is not
+// turned into a value (so the five documented functions see a wrong arity and yield
+// "not a Boolean", i.e. the test is false).
+use crate::parser::model::{Literal, Segment, Selector, Test};
+macro_rules! c14_custom_args {
+    ($name:ident, $first_missing:expr, $second_missing:expr) => {
+        proof!($name, 8, {
+            let root = Mini::Null;
+            let mut sc = Scratch::new();
+            sc.set(0, "a", Mini::Int(kani::any()));
+            sc.set(1, "l", Mini::Null);
+            let node = sc.obj(2);
+            let (mut sa, mut sl, mut sz1, mut sz2) = (m_name("a"), m_name("l"), m_name("zz"), m_name("yy"));
+            let mut t1 = if $first_missing { Test::RelQuery(seg_vec(&mut sz1, 1)) } else { Test::RelQuery(seg_vec(&mut sa, 1)) };
+            let mut t2 = if $second_missing { Test::RelQuery(seg_vec(&mut sz2, 1)) } else { Test::RelQuery(seg_vec(&mut sl, 1)) };
+            let mut buf = Pair { a: mfn_test(&mut t1), b: mfn_test(&mut t2) };
+            let args = core::mem::ManuallyDrop::new(fnarg_vec(&mut buf, 2));
+            let r = custom("in", &args, State::data(&root, Data::Ref(Pointer::new(&node, String::from("p")))));
+            let expect = (if $first_missing { 0 } else { 1 }) + (if $second_missing { 0 } else { 1 });
+            assert!(as_int(&r) == Some(expect), "an argument that selects nothing must not reach the extension hook as a value");
+            kani::cover!(true, "end reached");
+            forget(r);
+            forget(buf);
+            forget(sc);
+        });
+    };
+}
+c14_custom_args!(c14_custom_args_both, false, false);
+c14_custom_args!(c14_custom_args_first_missing, true, false);
+c14_custom_args!(c14_custom_args_second_missing, false, true);
